@@ -110,7 +110,12 @@ def generate(rng, tier):
         dtag, qtag = gen.pick_dims(rng, len(shape), 1)
         if isinstance(bc, tuple) and dtag == "sta" and False:
             pass
-        line = i1_line(S, xs, shape, flat, ("spl", False, bc), e_array(S, [len(qs)], qs, qtag=qtag, lay=rng.choice(gen.LAYS_ND)),
+        if rng.random() < 0.3:
+            # through interp_array_into: the caller's buffer holds arbitrary old contents (the runner pre-fills it with a poison value)
+            ent = gen.e_ainto(S, [len(qs)], [len(qs)] + shape[1:], qs, qtag=qtag, lay=rng.choice(gen.LAYS_ND), blay=rng.choice(gen.LAYS_ND))
+        else:
+            ent = e_array(S, [len(qs)], qs, qtag=qtag, lay=rng.choice(gen.LAYS_ND))
+        line = i1_line(S, xs, shape, flat, ("spl", False, bc), ent,
                        dtag=dtag, xlay=rng.choice(gen.LAYS_1D), dlay=rng.choice(gen.LAYS_ND))
         cases.append({"line": line, "meta": {"xs": xs, "shape": shape, "flat": flat, "bc": bc, "lanes": lanes, "qs": qs, "S": S}})
     return cases
